@@ -14,14 +14,25 @@ import (
 type sampleSource struct {
 	mu     sync.Mutex
 	source io.Reader
+	err    error // 首个读取错误，之后不再读取
 }
 
 // next 读满一个样本
 func (s *sampleSource) next(buf []byte) error {
 	s.mu.Lock()
 	defer s.mu.Unlock()
-	_, err := io.ReadFull(s.source, buf)
-	return err
+	if s.err != nil {
+		return s.err
+	}
+	_, s.err = io.ReadFull(s.source, buf)
+	return s.err
+}
+
+// failure 返回读取随机源时遇到的首个错误
+func (s *sampleSource) failure() error {
+	s.mu.Lock()
+	defer s.mu.Unlock()
+	return s.err
 }
 
 // 工作器
@@ -35,6 +46,7 @@ func worker(jobs chan int, source *sampleSource, n int, round func([]byte) []*ra
 	for i := range jobs {
 		err := source.next(buf)
 		if err != nil {
+			wait.Done()
 			continue
 		}
 		resArr := round(buf)
@@ -50,14 +62,14 @@ func worker(jobs chan int, source *sampleSource, n int, round func([]byte) []*ra
 
 // 根据处理器情况启动worker
 // return 控制命令管道, 结束型号器
-func bootWorker(source io.Reader, n int, round func([]byte) []*randomness.TestResult, counter []int32, distributions [][]float64) (chan int, *sync.WaitGroup) {
+func bootWorker(source io.Reader, n int, round func([]byte) []*randomness.TestResult, counter []int32, distributions [][]float64) (chan int, *sync.WaitGroup, *sampleSource) {
 	var wait sync.WaitGroup
 	jobs := make(chan int)
 	src := &sampleSource{source: source}
 	for i := 0; i < runtime.NumCPU(); i++ {
 		go worker(jobs, src, n, round, counter, distributions, &wait)
 	}
-	return jobs, &wait
+	return jobs, &wait, src
 }
 
 // FactoryDetectFast 出厂检测，15种检测，每组 10^6比特，分50组
@@ -68,13 +80,16 @@ func FactoryDetectFast(source io.Reader) (bool, error) {
 	n := 1000000 / 8
 	counters := make([]int32, 15)
 	distributions := createDistributions(s, 15)
-	jobs, wg := bootWorker(source, n, Round15, counters, distributions)
+	jobs, wg, src := bootWorker(source, n, Round15, counters, distributions)
 	wg.Add(s)
 	defer close(jobs)
 	for i := 0; i < s; i++ {
 		jobs <- i
 	}
 	wg.Wait()
+	if err := src.failure(); err != nil {
+		return false, err
+	}
 	fmt.Println(counters)
 	for i, itemCnt := range counters {
 		if int(itemCnt) < t {
@@ -98,13 +113,16 @@ func PowerOnDetectFast(source io.Reader) (bool, error) {
 	n := 1000000 / 8
 	counters := make([]int32, 15)
 	distributions := createDistributions(s, 15)
-	jobs, wg := bootWorker(source, n, Round15, counters, distributions)
+	jobs, wg, src := bootWorker(source, n, Round15, counters, distributions)
 	wg.Add(s)
 	defer close(jobs)
 	for i := 0; i < s; i++ {
 		jobs <- i
 	}
 	wg.Wait()
+	if err := src.failure(); err != nil {
+		return false, err
+	}
 	fmt.Println(counters)
 
 	for i, itemCnt := range counters {
@@ -130,13 +148,16 @@ func PeriodDetectFast(source io.Reader) (bool, error) {
 	n := 20000 / 8
 	counters := make([]int32, 15)
 	distributions := createDistributions(s, 15)
-	jobs, wg := bootWorker(source, n, Round15, counters, distributions)
+	jobs, wg, src := bootWorker(source, n, Round15, counters, distributions)
 	wg.Add(s)
 	defer close(jobs)
 	for i := 0; i < s; i++ {
 		jobs <- i
 	}
 	wg.Wait()
+	if err := src.failure(); err != nil {
+		return false, err
+	}
 	fmt.Println(counters)
 	for i, itemCnt := range counters {
 		if int(itemCnt) < t {
